@@ -944,7 +944,12 @@ func runC17(prop string, res *Result, pool *DrvPool, r *Rng) {
 		if w := safeAttrBytes(cl); w != "" {
 			res.Violation(Finding{Stream: "escaper", What: "class hole output of a template.HTML " + w + ": " + clip(cl), Op: map[string]interface{}{"s": hb(s)}})
 		}
-		p, st, tg := stack.VerifSplitTag(s)
+		var p, st, tg string
+		if pn := catch(func() { p, st, tg = stack.VerifSplitTag(s); stack.VerifEscape(s); stack.VerifSymbol(&stack.Func{Name: s}) }); pn != nil {
+			// the template engine turns a panic of a builder into a failed rendering
+			res.Violation(Finding{Stream: "builders", What: fmt.Sprintf("a link builder (splitTag / escape / symbol) panicked on a path component taken from the dump: %v - rendering a snapshot that contains it fails", pn), Op: map[string]interface{}{"op": "html.esc", "s": hb(s)}})
+			continue
+		}
 		hasLt := strings.Contains(s, "<")
 		want := map[string]string{
 			"htmlEscaper": he, "attrEscaper": at, "href": hr, "escape": stack.VerifEscape(s),
@@ -986,8 +991,14 @@ func runC17(prop string, res *Result, pool *DrvPool, r *Rng) {
 	for i := 0; i < nCall; i++ {
 		mc := h.call()
 		sc := sCall(&mc)
-		pu, su := stack.VerifPkgURL(&sc), stack.VerifSrcURL(&sc)
-		sym, fc := stack.VerifSymbol(&sc.Func), stack.VerifFuncClass(&sc)
+		var pu, su, sym, fc string
+		if pn := catch(func() {
+			pu, su = stack.VerifPkgURL(&sc), stack.VerifSrcURL(&sc)
+			sym, fc = stack.VerifSymbol(&sc.Func), stack.VerifFuncClass(&sc)
+		}); pn != nil {
+			res.Violation(Finding{Stream: "builders", What: fmt.Sprintf("a link builder (pkgURL / srcURL / symbol / funcClass) panicked on a frame: %v - rendering a snapshot that contains it fails", pn), Op: map[string]interface{}{"op": "html.call", "call": mc, "ver": hb(ver)}})
+			continue
+		}
 		res.Eval("call:"+jsonStr(mc), true)
 		op := map[string]interface{}{"op": "html.call", "call": mc, "ver": hb(ver)}
 		// direct: fixed scheme first, whatever the fields
